@@ -348,6 +348,24 @@ def searchAll : List String :=
 def quadEq (a b : Quad) : Bool :=
   Term.termEq a.s b.s && Term.termEq a.p b.p && Term.termEq a.o b.o && Sparql.graphNameEq a.g b.g
 
+/-- the in-memory stores intern terms through a `Term::eq`-keyed index: of two spellings of one
+term (language tags differing in case) the first inserted is the one every quad refers to — which
+`LANG(?x)` makes observable.  The request's quads are normalised the same way. -/
+def internTerm (seen : List Term) (t : Term) : Term × List Term :=
+  match seen.find? (fun u => Term.termEq u t) with
+  | some u => (u, seen)
+  | none => (t, seen ++ [t])
+
+def internData (D : List Quad) : List Quad :=
+  (D.foldl (fun (acc : List Quad × List Term) q =>
+    let (s, seen₁) := internTerm acc.2 q.s
+    let (p, seen₂) := internTerm seen₁ q.p
+    let (o, seen₃) := internTerm seen₂ q.o
+    let (g, seen₄) := match q.g with
+      | some g => let r := internTerm seen₃ g; (some r.1, r.2)
+      | none => (none, seen₃)
+    (acc.1 ++ [⟨s, p, o, g⟩], seen₄)) ([], [])).1
+
 def handle (line : String) : String :=
   match fields line with
   | "q" :: rest =>
@@ -356,7 +374,7 @@ def handle (line : String) : String :=
     | some (D, qt) =>
       match parseQuery qt with
       | none => "bad-op"
-      | some q => answer (SparqlSpec.dedupBy quadEq D) q
+      | some q => answer (SparqlSpec.dedupBy quadEq (internData D)) q
   | "raw" :: _ => "skip=1"
   | ["search"] => "\n".intercalate searchAll
   | _ => "bad-op"
